@@ -49,7 +49,16 @@ func (e *env) bind(name string, v Val) *env {
 	return &n
 }
 
+// loopClauseErr: a clause of a loop whose header was restructured no longer evaluates
+type loopClauseErr struct {
+	spec *loopSpec
+	msg  string
+}
+
 func (e *env) fail(format string, a ...interface{}) {
+	if e.u != nil && e.u.curLoopSpec != nil && e.u.curLoopSpec.hintMismatch {
+		panic(loopClauseErr{e.u.curLoopSpec, fmt.Sprintf("contract %s: %s", e.what, fmt.Sprintf(format, a...))})
+	}
 	panic(engineErr(fmt.Sprintf("contract %s: %s", e.what, fmt.Sprintf(format, a...))))
 }
 
